@@ -120,7 +120,7 @@ func trapCase(t *mon.T, allSets bool) {
 	}
 	t.R.ChildMax("loop_ticks_per_call", float64(base.ticks))
 	flags0 := base.o.Flags
-	sys := flags0&sysFlags != 0 || isSystemErr(base.o.Err)
+	sys := flags0&sysFlags != 0 || isSystemErr(base.o.Err) || (base.o.Err != nil && flags0 == 0 && isSingleRounding(op))
 	if base.o.Err != nil && !sys {
 		// errors other than system limits with no traps (e.g. "did not converge",
 		// zero precision): not a trap question
@@ -190,7 +190,7 @@ func trapCase(t *mon.T, allSets bool) {
 				report("error-without-trapped-condition", "error although flags&Traps == 0 and no system limit was hit", T, to)
 				return
 			}
-			if gotErr && !sys && !isSystemErr(to.o.Err) {
+			if gotErr && !sys && !isSystemOutcome(to.o) {
 				if why := same(); why != "" {
 					report("result-not-delivered-with-trap-error", why, T, to)
 					return
